@@ -266,6 +266,64 @@ Check diagnostics_unbound_refuted : forall (H : bytes -> N),
                  core_result N wroot r = core_result N wroot r' /\ map a_plan (rs_hist r) <> map a_plan (rs_hist r').
 Print Assumptions diagnostics_unbound_refuted.
 
+(* The link check at work (re-labelled duplicates / gaps): an entry served at a coordinate k >= 1 whose recorded parents
+   do not contain the commit of the verified entry k-1 - in particular a copy of entry k-1 (parents name entry k-2) or of
+   entry k+1 (parents name entry k) with its tick and receipt re-labelled to k - is rejected by the full replay of the
+   edited history to any target beyond k AND by every incremental run (cursor step, restored checkpoint) that starts
+   at k on a state whose last replayed commit is that of entry k-1.  No collision case: the check compares recorded ids. *)
+Theorem replay_unlinked_entry_rejected : forall (H : bytes -> N) (St : Type) (apply : St -> list op -> option St)
+  (root : St -> N) (wl u0 : N) pre p e rest t w w1,
+  run H St apply root true wl u0 (pre ++ [p]) t w = inr w1 ->
+  ~ In (e_commit p) (parent_ids e) ->
+  (exists x, run H St apply root true wl u0 ((pre ++ [p]) ++ e :: rest) t w = inl x) /\
+  (forall w2 t2, last_commit St w2 = Some (e_commit p) ->
+                 exists x, run H St apply root true wl u0 (e :: rest) t2 w2 = inl x).
+Proof. exact replay_unlinked_entry_rejected_proof. Qed.
+Check replay_unlinked_entry_rejected : forall (H : bytes -> N) (St : Type) (apply : St -> list op -> option St)
+  (root : St -> N) (wl u0 : N) pre p e rest t w w1,
+  run H St apply root true wl u0 (pre ++ [p]) t w = inr w1 ->
+  ~ In (e_commit p) (parent_ids e) ->
+  (exists x, run H St apply root true wl u0 ((pre ++ [p]) ++ e :: rest) t w = inl x) /\
+  (forall w2 t2, last_commit St w2 = Some (e_commit p) ->
+                 exists x, run H St apply root true wl u0 (e :: rest) t2 w2 = inl x).
+Print Assumptions replay_unlinked_entry_rejected.
+
+(* Recorded, outside C05's quantifier (DESIGN 9.3): at the GENESIS coordinate nothing was replayed before the entry, so
+   the link check has nothing to compare with - an entry that records parents is accepted at tick 0, with the same
+   state and a commit id different from the parent-less genesis commit (or H collides).  Mirrors advance_replay_state,
+   which checks the link only when tick_history is non-empty. *)
+Theorem genesis_entry_with_parents_accepted_refuted : forall (H : bytes -> N),
+  exists (e0 e : entry),
+    e_parents e0 = [] /\ e_parents e <> [] /\
+    exists r r', run H N wapply wroot true 1 0 [e0] 0 wbase = inr r /\
+                 run H N wapply wroot true 1 0 [e] 0 wbase = inr r' /\
+                 rs_state r = rs_state r' /\
+                 (map a_commit (rs_hist r) <> map a_commit (rs_hist r') \/ Collision H).
+Proof. exact genesis_entry_with_parents_accepted_refuted_proof. Qed.
+Check genesis_entry_with_parents_accepted_refuted : forall (H : bytes -> N),
+  exists (e0 e : entry),
+    e_parents e0 = [] /\ e_parents e <> [] /\
+    exists r r', run H N wapply wroot true 1 0 [e0] 0 wbase = inr r /\
+                 run H N wapply wroot true 1 0 [e] 0 wbase = inr r' /\
+                 rs_state r = rs_state r' /\
+                 (map a_commit (rs_hist r) <> map a_commit (rs_hist r') \/ Collision H).
+Print Assumptions genesis_entry_with_parents_accepted_refuted.
+
+(* Non-vacuity of replay_unlinked_entry_rejected: entry 0 of the witness history re-labelled to tick 1 (its parents are
+   empty, so they do not contain commit 0) served at coordinate 1 is rejected by the link check, from U0 and from the
+   verified state of tick 1; the same material passes when the check is off. *)
+Example c05_relabelled_duplicate :
+  let dup := wentry Hpoly 1 1 0 [] in
+  ~ In (e_commit (we0 Hpoly)) (parent_ids dup) /\ e_commit dup = e_commit (we0 Hpoly) /\
+  run Hpoly N wapply wroot true 1 0 [we0 Hpoly; dup] 0 wbase = inl (EParentLink 1) /\
+  (exists w1, run Hpoly N wapply wroot true 1 0 [we0 Hpoly] 0 wbase = inr w1 /\
+              run Hpoly N wapply wroot true 1 0 [dup] 1 w1 = inl (EParentLink 1)) /\
+  (exists r, run Hpoly N wapply wroot false 1 0 [we0 Hpoly; dup] 0 wbase = inr r).
+Proof.
+  cbv zeta. split; [intros []|]. split; [vm_compute; reflexivity|]. split; [vm_compute; reflexivity|].
+  split; eexists; [split|]; vm_compute; reflexivity.
+Qed.
+
 (* Non-vacuity: with a concrete hash (Hpoly, a polynomial fold mod 2^256, defined in ChainProofs3) the two-entry witness history is well formed,
    verifies, is linked, and a one-field alteration (state root of entry 0) of it is rejected with a typed error,
    while an alteration beyond the replayed prefix leaves the result unchanged. *)
